@@ -64,7 +64,7 @@ func (b *Bundle) NameFeature(class, role string) {
 	}
 }
 
-var CollisionKinds = []string{"exact", "case", "several", "generatedName", "oaigenTaken", "oaigen1Taken", "paramsBodyTaken", "twoImportsSameName", "caseTwinsInline", "prefixNames", "anonPointerNameTaken", "anonPointerSymbolsKey", "opKeyTwins", "opKeyTwinsWithID", "dupOperationIds"}
+var CollisionKinds = []string{"exact", "case", "several", "generatedName", "oaigenTaken", "oaigen1Taken", "paramsBodyTaken", "twoImportsSameName", "caseTwinsInline", "prefixNames", "anonPointerNameTaken", "anonPointerSymbolsKey", "opKeyTwins", "opKeyTwinsWithID", "dupOperationIds", "prefixNamesRemoteRecursive"}
 
 // Collision plants a name collision pattern. Imported definitions that collide are $ref-free.
 func (b *Bundle) Collision(kind string) {
@@ -155,6 +155,19 @@ func (b *Bundle) Collision(kind string) {
 			op["parameters"] = jx.Arr{jx.Obj{"name": "body", "in": "body", "schema": body}}
 			jx.AsObj(op["responses"])["200"] = jx.Obj{"description": b.lbl("dup"), "schema": jx.Obj{"type": "array", "items": b.Obj()}}
 		}
+	case "prefixNamesRemoteRecursive":
+		// a root definition whose (mangled) name is a proper prefix of an imported recursive definition's, which is the
+		// only holder of a $ref to a third one; after expansion the root definition is unused
+		b.Def("tree"+k, b.Obj())
+		use("#/definitions/tree" + k)
+		b.AuxDef("sub/a.json", "Tree"+k+"Node", jx.Obj{"type": "object", "description": b.lbl("tn"), "properties": jx.Obj{
+			"children": jx.Obj{"type": "array", "items": jx.Obj{"$ref": "#/definitions/Tree" + k + "Node"}},
+			"label":    jx.Obj{"$ref": "#/definitions/Label" + k}}})
+		b.AuxDef("sub/a.json", "Label"+k, b.Obj())
+		use("sub/a.json#/definitions/Tree" + k + "Node")
+		b.Tag("cycle")
+		b.Tag("unused")
+		b.Tag("multi-doc")
 	case "prefixNames":
 		// a definition name that is a proper prefix of another one; the longer-named one is the only referrer of a chain
 		use(b.Def("Acct"+k+"Settings", jx.Obj{"type": "object", "description": b.lbl("px"), "properties": jx.Obj{"theme": jx.Obj{"$ref": "#/definitions/Theme" + k}}}))
@@ -207,7 +220,9 @@ func (b *Bundle) NonSchemaRef(kind string) {
 	case "opParamRef", "pathParamRef":
 		n := "sp" + k
 		sharedParam(b.Root, n, b.Hold("property", jx.Obj{"$ref": b.Target("localDef", "")}, 1, ""))
-		b.section(b.Root, "parameters")["q"+k] = jx.Obj{"name": "q" + k, "in": "query", "type": "string", "description": b.lbl("qp")}
+		// a simple shared parameter with items carrying a pattern and an enum (indexes that shrink when it is dropped)
+		b.section(b.Root, "parameters")["q"+k] = jx.Obj{"name": "q" + k, "in": "query", "type": "array", "description": b.lbl("qp"),
+			"items": jx.Obj{"type": "string", "pattern": "^q" + k, "enum": jx.Arr{"a" + k, "b"}}}
 		p := b.newPath()
 		op := b.Op(p, Pick(b.rng, MethodsAll), true)
 		refs := jx.Arr{jx.Obj{"$ref": "#/parameters/" + n}, jx.Obj{"$ref": "#/parameters/q" + k}}
@@ -219,8 +234,15 @@ func (b *Bundle) NonSchemaRef(kind string) {
 	case "defaultResponseRef", "codeResponseRef":
 		n := "sr" + k
 		b.section(b.Root, "responses")[n] = jx.Obj{"description": b.lbl("sr"), "schema": b.Hold("items", jx.Obj{"$ref": b.Target("localDef", "")}, 1, ""),
-			"headers": jx.Obj{"X-Rate": jx.Obj{"type": "integer", "description": b.lbl("hd")}}}
+			"headers": jx.Obj{"X-Rate": jx.Obj{"type": "integer", "description": b.lbl("hd")},
+				"X-Tags": jx.Obj{"type": "array", "items": jx.Obj{"type": "string", "pattern": "^t" + k, "enum": jx.Arr{"t" + k, "u"}}},
+				"X-Mode": jx.Obj{"type": "string", "pattern": "^m" + k, "enum": jx.Arr{"on", "off"}}}}
 		op := b.Op(b.newPath(), Pick(b.rng, MethodsAll), true)
+		// a shared response made of headers only (no schema)
+		b.section(b.Root, "responses")["moved"+k] = jx.Obj{"description": b.lbl("mv"), "headers": jx.Obj{
+			"Location": jx.Obj{"type": "string", "pattern": "^/l" + k},
+			"X-List":   jx.Obj{"type": "array", "items": jx.Obj{"type": "string", "enum": jx.Arr{"x" + k}}}}}
+		jx.AsObj(op["responses"])["301"] = jx.Obj{"$ref": "#/responses/moved" + k}
 		key := "default"
 		if kind == "codeResponseRef" {
 			key = "404"
@@ -660,6 +682,25 @@ func (b *Bundle) referFrom(where, ref string, used bool) {
 		n := b.lbl("mapHolder")
 		b.Def(n, jx.Obj{"type": "object", "description": b.lbl("hd"), "additionalProperties": r})
 		useDef(n)
+	case "defPropertyViaPointer", "defItemsViaPointer":
+		// the referrer is a direct sub-schema of a root definition, and another definition points to that sub-schema
+		// with an anonymous pointer (the pointer is replaced by the $ref it finds there)
+		n := b.lbl("ptdHolder")
+		sub := "/properties/content"
+		if where == "defItemsViaPointer" {
+			b.Def(n, jx.Obj{"type": "array", "description": b.lbl("hd"), "items": r})
+			sub = "/items"
+		} else {
+			b.Def(n, jx.Obj{"type": "object", "description": b.lbl("hd"), "properties": jx.Obj{"content": r, "other": jx.Obj{"type": "string"}}})
+		}
+		useDef(n)
+		u := b.lbl("ptrUser")
+		b.Def(u, jx.Obj{"type": "object", "description": b.lbl("pu"), "properties": jx.Obj{"what": jx.Obj{"$ref": "#/definitions/" + n + sub}}})
+		if used || Chance(b.rng, 50) {
+			op := b.Op(b.newPath(), Pick(b.rng, MethodsAll), true)
+			jx.AsObj(op["responses"])["200"] = jx.Obj{"description": b.lbl("u"), "schema": jx.Obj{"$ref": "#/definitions/" + u}}
+		}
+		b.AnonPtr = true
 	case "respItems":
 		b.Place("codeResponse", b.Hold("items", r, 1, ""), "")
 	case "respProperty":
@@ -741,6 +782,8 @@ func collisionWhereSets() [][]string {
 		// two referrers of the same kind: keys of equal depth that differ only in the holder's name (ties in the orderings)
 		{"defAllOf", "defAllOf"}, {"defItems", "defItems"}, {"defAddProps", "defAddProps"}, {"opParam", "opParam"},
 		{"codeResponse", "codeResponse"}, {"respItems", "respItems"}, {"defAllOf", "defAllOf", "defAllOf"}, {"defAlias", "defAlias"},
+		// the referrer is also the target of an anonymous pointer
+		{"defPropertyViaPointer"}, {"defItemsViaPointer"}, {"defPropertyViaPointer", "codeResponse"}, {"defProperty", "defPropertyViaPointer"},
 	}...)
 	return out
 }
